@@ -39,6 +39,37 @@ class Bomb:
         return "<value whose every use raises a bare %s>" % self.name
 
 
+class StrSub(str):
+    """a str whose str() differs from its content (a str-mixin Enum member prints 'Tier.GOLD', an id wrapper prints its canonical
+    form): str() of the value is what the scheme hashes"""
+
+    def __new__(cls, raw, shown):
+        o = super().__new__(cls, raw)
+        o.shown = shown
+        return o
+
+    def __str__(self):
+        return self.shown
+
+    def __repr__(self):
+        return "StrSub(%s, str()=%r)" % (str.__repr__(self), self.shown)
+
+
+class IntSub(int):
+    """an int whose str() differs from its number (an IntFlag / a named constant)"""
+
+    def __new__(cls, raw, shown):
+        o = super().__new__(cls, raw)
+        o.shown = shown
+        return o
+
+    def __str__(self):
+        return self.shown
+
+    def __repr__(self):
+        return "IntSub(%d, str()=%r)" % (int(self), self.shown)
+
+
 class Handle:
     """a plain object (equal only to itself); `Handle.get(n)` returns the same object for the same n, so several fields of one
     input - and a member of a list field - can hold ONE object"""
@@ -72,6 +103,10 @@ def enc(v):
         return {"t": "lock"}
     if isinstance(v, Bomb):
         return {"t": "bomb", "v": v.name}
+    if isinstance(v, StrSub):
+        return {"t": "strsub", "v": "".join(v), "s": v.shown}
+    if isinstance(v, IntSub):
+        return {"t": "intsub", "v": int(v), "s": v.shown}
     if v is None:
         return {"t": "none"}
     if isinstance(v, bool):
@@ -109,6 +144,10 @@ def dec(d):
         return fractions.Fraction(d["v"])
     if t == "bomb":
         return Bomb(d["v"])
+    if t == "strsub":
+        return StrSub(d["v"], d["s"])
+    if t == "intsub":
+        return IntSub(d["v"], d["s"])
     if t == "handle":
         return Handle.get(d["v"])
     if t == "lock":
